@@ -35,7 +35,7 @@ def _demo_d2(P):
 def register(P):
     import json as _json
     P.KNOWN_DEMOS[_json.dumps({"oracle": "stream", "what": "diverged_after_delivered_probe_was_resplit"}, sort_keys=True)] = _demo_d2(P)
-    reg(P, "C18", ["UtpVerif.Props.C18"], ["stream_content"])
+    reg(P, "C18", ["UtpVerif.Props.C18"], ["stream_content", "nagle"])
     reg(P, "C05", ["UtpVerif.Props.C05"], ["window"])
     reg(P, "C07", ["UtpVerif.Props.C07"], ["ack_timeliness"])
     reg(P, "C17", ["UtpVerif.Props.C17"], ["stream_content"])
